@@ -10,6 +10,8 @@ for line in git("log", "--format=%h\t%s", "main").splitlines():
     h, s = line.split("\t", 1)
     main.setdefault(s, h)
 main_ids = set(main.values())
+# builder commits superseded by an equivalent fix of another builder that reached main first
+ALIAS = {"f13c39f": "3b48688", "481a1b4": "2ad9592"}
 d = json.loads((V / "known_findings.json").read_text())
 out, unresolved = [], []
 for f in d["fixed"]:
@@ -17,6 +19,8 @@ for f in d["fixed"]:
     if not m:
         out.append(f); continue
     sha = m.group(2)
+    if sha in ALIAS:
+        out.append(m.group(1) + ALIAS[sha] + m.group(3)); continue
     if any(x.startswith(sha) or sha.startswith(x) for x in main_ids):
         out.append(f); continue
     subj = git("log", "-1", "--format=%s", sha).strip()
@@ -24,6 +28,10 @@ for f in d["fixed"]:
         out.append(m.group(1) + main[subj] + m.group(3))
     else:
         unresolved.append((sha, subj)); out.append(f)
-d["fixed"] = out
+seen, dedup = set(), []
+for f in out:
+    if f not in seen:
+        seen.add(f); dedup.append(f)
+d["fixed"] = dedup
 (V / "known_findings.json").write_text(json.dumps(d, indent=1) + "\n")
 print("unresolved:", unresolved)
